@@ -326,7 +326,9 @@ def C11_stable_on (P : Val → Prop) : Prop :=
   ∀ (t : List UInt8) (v : Val), fromBytes t = .ok v → P v → fromBytes (encode (asRead v)) = .ok v
 
 /-- **the property at full strength (model side)**: all accepted texts.  FALSE on the pinned tree: known finding
-Z4, `C11_stable_fails_Z4`. -/
+Z4, `C11_stable_fails_Z4`.  (Known finding INFUNIT — `1e999kW` overflows to an infinity that keeps its unit, the
+writer prints `INF` without one — is NOT visible in this statement: a decoded number is lexical in the model, its
+value under `f64::from_str` belongs to the trusted base; that finding is decided on the implementation only.) -/
 def C11_stable : Prop := C11_stable_on (fun _ => True)
 
 /-- PARTIAL: stability for every decoded value that is well-formed (`wfV`, `depthOk`) and lexical (a fixed point of
